@@ -565,7 +565,17 @@ func CheckC14(tier string) {
 				}
 			}
 			if len(userErrs) > 0 {
-				fail("does-not-compile/"+msgClass(userErrs[0].Msg), strings.ReplaceAll(strings.TrimSpace(p.KBuildErr), "\n", " | "))
+				cls := msgClass(userErrs[0].Msg)
+				if cls == "undefined" {
+					// declared in a wire file only (wire copies such declarations into wire_gen.go)?
+					name := strings.TrimSpace(strings.TrimPrefix(userErrs[0].Msg, "undefined:"))
+					for _, wf := range []string{"wire.go", "wire_sets.go"} {
+						if b, err := os.ReadFile(filepath.Join(p.WDir, wf)); err == nil && regexp.MustCompile(`(?m)^(func|type|const|var) `+regexp.QuoteMeta(name)+`\b`).Match(b) {
+							cls = "declared-only-in-wire-file"
+						}
+					}
+				}
+				fail("does-not-compile/"+cls, strings.ReplaceAll(strings.TrimSpace(p.KBuildErr), "\n", " | "))
 			} else {
 				rep.Count("compile_errors_outside_kessoku.go_(C13/C04_domain)", 1)
 			}
